@@ -45,17 +45,6 @@ Proof.
   f_equal. apply IH. intros x Hx. apply H. right. exact Hx.
 Qed.
 
-Lemma gen_get_end_eq n fh : valid_fh fh -> gen_get_end n fh = n - zlast fh + 1.
-Proof. intro H. unfold gen_get_end. rewrite valid_fh_not_in_sample by exact H. reflexivity. Qed.
-
-Lemma gen_get_start_eq c : valid_fh (fh c) ->
-  gen_get_start (wl c) (step c) (iw c) (sww c) (fh c) = start_point c.
-Proof.
-  intro H. unfold gen_get_start, start_point.
-  rewrite valid_fh_out_of_sample by exact H. cbn [negb].
-  destruct (sww c); destruct (iw c); reflexivity.
-Qed.
-
 Lemma test_filter_eq fh p : valid_fh fh -> 0 <= p ->
   filter (fun v => v >=? 0) (map (fun v => v - 1) (map (fun v => p + v) fh)) =
   map (fun h => p - 1 + h) fh.
@@ -133,24 +122,36 @@ Proof.
   - solve_test H.
 Qed.
 
-Lemma feasible_check c : valid c ->
-  feasible c = match gen_check_window_lengths (n c) (fh c) (wl c) (iw c) with
-               | Err => false
-               | Ok _ => match iw c with Some i => sww c && (wl c <? i) | None => true end
-               end.
-Proof.
-  intros _. unfold feasible, gen_check_window_lengths, fhmax. open_lets.
-  destruct (iw c) as [i|]; split_tests; cbn [andb]; try reflexivity;
-    repeat match goal with
-           | |- context [?a <=? ?b] => let E := fresh "E" in destruct (a <=? b) eqn:E
-           end; cbn [andb]; try reflexivity; lia.
-Qed.
-
 Lemma start_point_nonneg c : valid c -> 0 <= start_point c.
 Proof.
   intros (Hfh & Hwl & Hst & Hiw). unfold start_point.
   destruct (sww c); [|lia]. destruct (iw c) as [i|] eqn:E; [specialize (Hiw i eq_refl)|]; lia.
 Qed.
+
+(* The roots below are regenerated with every private helper inlined (`_get_end`,
+   `_check_window_lengths`, `_get_start`, ...), so the proofs do not mention helpers: they replace
+   the in-sample / out-of-sample tests by their value on a valid horizon, open all `let`s, split on
+   every remaining test and compare what is left semantically. *)
+Ltac fh_facts Hfh :=
+  rewrite ?(valid_fh_out_of_sample _ Hfh), ?(valid_fh_not_in_sample _ Hfh); cbn [negb]; open_lets.
+(* `map F (zrange a b st) = map F (zrange a' b' st)` with a = a', b = b' by arithmetic *)
+Ltac same_ranges := first [reflexivity | f_equal; first [reflexivity | f_equal; lia]].
+Ltac absurd_or_refl := try reflexivity; try (exfalso; lia); try discriminate.
+(* `map (fun '(a, b) => (a, b)) l = l` and list plumbing of generators *)
+Lemma map_pair_id {A B} (l : list (A * B)) : map (fun '(a, b) => (a, b)) l = l.
+Proof. rewrite (map_ext _ (fun x => x)) by (intros [? ?]; reflexivity). apply map_id. Qed.
+Ltac plumb := unfold rcons, rapp; rewrite ?app_nil_r, ?map_pair_id; cbn [map app]; open_lets.
+
+(* what the first (initial-window) split and the regular splits of the window splitters are *)
+Lemma windows_tail_eq (G : Z -> Z -> Z -> Z -> list Z -> list (list Z * list Z)) k c s e :
+  s = start_point c -> e = end_point c ->
+  map (fun '(train, test) => (filter (fun v_ => v_ >=? 0) train, filter (fun v_ => v_ >=? 0) test))
+      (G s e (step c) (wl c) (fh c)) =
+  map (fun cut => (train_at k c cut, test_at c cut)) (zrange (s - 1) (e - 1) (step c)) ->
+  map (fun '(train, test) => (filter (fun v_ => v_ >=? 0) train, filter (fun v_ => v_ >=? 0) test))
+      (G s e (step c) (wl c) (fh c)) =
+  map (fun cut => (train_at k c cut, test_at c cut)) (regular_cutoffs c).
+Proof. intros -> -> H. exact H. Qed.
 
 Theorem bridge_sliding c : valid c ->
   gen_split_filter
@@ -158,29 +159,30 @@ Theorem bridge_sliding c : valid c ->
   = window_split Sliding c.
 Proof.
   intros Hv. pose proof Hv as (Hfh & Hwl & Hst & Hiw).
-  unfold gen_split_filter, gen_window_split, window_split.
-  rewrite (feasible_check c Hv).
-  destruct (gen_check_window_lengths (n c) (fh c) (wl c) (iw c)) as [[]|]; [|reflexivity].
-  rewrite valid_fh_out_of_sample by exact Hfh. cbn [negb].
-  rewrite gen_get_start_eq by exact Hfh. rewrite gen_get_end_eq by exact Hfh.
   pose proof (start_point_nonneg c Hv) as Hsp.
-  unfold initial_split, regular_cutoffs, end_point, fhmax, test_at, train_at.
-  destruct (iw c) as [i|] eqn:Ei.
-  - specialize (Hiw i eq_refl).
-    destruct (sww c) eqn:Es; cbn [negb andb]; [|reflexivity].
-    destruct (i <=? wl c) eqn:El; destruct (wl c <? i) eqn:El'; try lia; [reflexivity|].
-    unfold rcons, rapp. rewrite !app_nil_r. cbn [map app]. f_equal.
-    rewrite (map_ext (fun '(train, test) => (train, test)) (fun x => x)) by (intros [? ?]; reflexivity).
-    rewrite map_id.
-    rewrite (sliding_windows_eq (start_point c)) by (try assumption; lia).
-    f_equal. f_equal.
-    + rewrite zrange_filter_ge. f_equal; lia.
-    + rewrite test_filter_eq by (try assumption; lia). apply map_ext. intro; lia.
-  - unfold rapp. rewrite !app_nil_r.
-    rewrite (map_ext (fun '(train, test) => (train, test)) (fun x => x)) by (intros [? ?]; reflexivity).
-    rewrite map_id.
-    rewrite (sliding_windows_eq (start_point c)) by (try assumption; lia).
-    reflexivity.
+  unfold gen_split_filter, gen_window_split, window_split, feasible, fhmax. open_lets.
+  fh_facts Hfh.
+  unfold initial_split. unfold start_point in Hsp.
+  destruct (iw c) as [i|] eqn:Ei; [specialize (Hiw i eq_refl)|];
+    destruct (sww c) eqn:Es; cbn [negb andb]; open_lets; fh_facts Hfh;
+    split_tests; cbn [andb] in *; absurd_or_refl; plumb; f_equal.
+  - (* initial window, then the regular windows *)
+    f_equal.
+    + f_equal.
+      * solve_train.
+      * unfold test_at. solve_test Hfh.
+    + match goal with |- context [gen_sliding_windows ?s ?e _ _ _] =>
+        rewrite (sliding_windows_eq s e) by (try assumption; lia) end.
+      unfold regular_cutoffs, start_point, end_point, fhmax, train_at, test_at. rewrite Ei, Es.
+      same_ranges.
+  - match goal with |- context [gen_sliding_windows ?s ?e _ _ _] =>
+      rewrite (sliding_windows_eq s e) by (try assumption; lia) end.
+    unfold regular_cutoffs, start_point, end_point, fhmax, train_at, test_at. rewrite Ei, Es.
+    same_ranges.
+  - match goal with |- context [gen_sliding_windows ?s ?e _ _ _] =>
+      rewrite (sliding_windows_eq s e) by (try assumption; lia) end.
+    unfold regular_cutoffs, start_point, end_point, fhmax, train_at, test_at. rewrite Ei, Es.
+    same_ranges.
 Qed.
 
 Theorem bridge_expanding c : valid c -> iw c = None ->
@@ -189,50 +191,48 @@ Theorem bridge_expanding c : valid c -> iw c = None ->
   = window_split Expanding c.
 Proof.
   intros Hv Hnone. pose proof Hv as (Hfh & Hwl & Hst & Hiw).
-  unfold gen_split_filter, gen_window_split, window_split.
-  rewrite (feasible_check c Hv).
-  destruct (gen_check_window_lengths (n c) (fh c) (wl c) (iw c)) as [[]|]; [|reflexivity].
-  rewrite gen_get_start_eq by exact Hfh. rewrite gen_get_end_eq by exact Hfh.
   pose proof (start_point_nonneg c Hv) as Hsp.
-  unfold initial_split, regular_cutoffs, end_point, fhmax, test_at, train_at.
-  assert (Hw : start_point c - wl c <= 0).
-  { unfold start_point. rewrite Hnone. destruct (sww c); lia. }
-  rewrite Hnone. unfold rapp. rewrite !app_nil_r.
-  rewrite (map_ext (fun '(train, test) => (train, test)) (fun x => x)) by (intros [? ?]; reflexivity).
-  rewrite map_id.
-  rewrite (expanding_windows_eq (start_point c)) by (try assumption; lia).
-  reflexivity.
+  unfold gen_split_filter, gen_window_split, window_split, feasible, fhmax. open_lets.
+  fh_facts Hfh. unfold initial_split. unfold start_point in Hsp. rewrite Hnone in *.
+  destruct (sww c) eqn:Es; cbn [negb andb]; open_lets; fh_facts Hfh;
+    split_tests; cbn [andb] in *; absurd_or_refl; plumb; f_equal;
+    (match goal with |- context [gen_expanding_windows ?s ?e _ _ _] =>
+       rewrite (expanding_windows_eq s e) by (try assumption; lia) end;
+     unfold regular_cutoffs, start_point, end_point, fhmax, train_at, test_at; rewrite Hnone, Es;
+     same_ranges).
 Qed.
 
 Theorem bridge_window_cutoffs c : valid c ->
   gen_window_cutoffs (wl c) (step c) (iw c) (sww c) (fh c) (n c) = Ok (window_cutoffs c).
 Proof.
   intros Hv. pose proof Hv as (Hfh & Hwl & Hst & Hiw).
-  unfold gen_window_cutoffs, window_cutoffs, regular_cutoffs, end_point, fhmax.
-  rewrite gen_get_start_eq by exact Hfh. rewrite gen_get_end_eq by exact Hfh.
-  destruct (iw c) as [i|]; rewrite zrange_map_affine by lia; reflexivity.
+  unfold gen_window_cutoffs, window_cutoffs, regular_cutoffs, start_point, end_point, fhmax.
+  open_lets. fh_facts Hfh.
+  destruct (iw c) as [i|]; destruct (sww c); cbn [negb andb]; open_lets; fh_facts Hfh;
+    split_tests; rewrite zrange_map_affine by lia; f_equal; f_equal; lia.
 Qed.
 
 Theorem bridge_window_n_splits c : valid c ->
   gen_window_n_splits (wl c) (step c) (iw c) (sww c) (fh c) (n c) = Ok (window_n_splits c).
 Proof.
-  intro Hv. unfold gen_window_n_splits. rewrite bridge_window_cutoffs by exact Hv. reflexivity.
+  intro Hv. unfold gen_window_n_splits. open_lets.
+  rewrite bridge_window_cutoffs by exact Hv. reflexivity.
 Qed.
 
 Theorem bridge_single nn f wlo : valid_fh f -> zlast f <= nn ->
   gen_split_filter (gen_single_split f wlo) nn = Ok (single_split nn f wlo).
 Proof.
   intros Hfh Hn. unfold gen_split_filter, gen_single_split, single_split, single_cutoff.
-  rewrite ?gen_get_end_eq by exact Hfh. open_lets.
-  destruct wlo as [w|]; open_lets; unfold rcons, rapp; cbn [map app]; open_lets;
-    (f_equal; f_equal; f_equal; [solve_train|solve_test Hfh]).
+  open_lets. fh_facts Hfh.
+  destruct wlo as [w|]; open_lets; fh_facts Hfh; plumb;
+    (f_equal; f_equal; f_equal; [solve_train|]); solve_test Hfh.
 Qed.
 
 Theorem bridge_single_cutoffs nn f : valid_fh f ->
   gen_single_cutoffs f nn = Ok [single_cutoff nn f].
 Proof.
-  intro Hfh. unfold gen_single_cutoffs, single_cutoff. rewrite ?gen_get_end_eq by exact Hfh.
-  open_lets. f_equal. f_equal. lia.
+  intro Hfh. unfold gen_single_cutoffs, single_cutoff. open_lets. fh_facts Hfh.
+  f_equal. f_equal. lia.
 Qed.
 
 Theorem bridge_cutoff nn f w cs : valid_fh f -> (forall c, In c cs -> 0 <= c) ->
